@@ -410,6 +410,18 @@ func (e *env) view() kit.M {
 			}
 		}
 	}
+	// containers known to the metabase (buckets), as catalogue indexes
+	cnrList, err := e.mb.Containers()
+	kit.Must(err)
+	cnrs := []int{}
+	for _, c := range cnrList {
+		for k := 1; k <= e.w.cat.NC; k++ {
+			if e.w.cids[k] == c {
+				cnrs = append(cnrs, k)
+			}
+		}
+	}
+	sort.Ints(cnrs)
 	cs, err := e.mb.ObjectCounters()
 	kit.Must(err)
 	// indexed filler objects (regular, root, empty payload) are not part of the catalogue
@@ -427,7 +439,7 @@ func (e *env) view() kit.M {
 	sort.Ints(srch)
 	sort.Ints(garb)
 	return kit.M{"ex": ex, "get": get, "lk": lk, "ec": ec, "blob": blob, "list": nz(list), "expd": nz(expd), "srch": nz(srch),
-		"garb": nz(garb), "dead": nz(deadEmpty),
+		"garb": nz(garb), "dead": nz(deadEmpty), "cnrs": cnrs,
 		"ctr": kit.M{"phy": capU(cs.Phy), "root": capU(cs.Root), "ts": capU(cs.TS), "lock": capU(cs.Lock), "link": capU(cs.Link), "gc": capU(cs.GC), "pay": capU(cs.Payload)},
 		"cnt": capS(cnt), "size": capS(size)}
 }
